@@ -23,7 +23,7 @@ type Custom struct {
 
 type TextT struct{ V string }
 
-func (t TextT) MarshalText() ([]byte, error)   { return []byte("t:" + t.V), nil }
+func (t TextT) MarshalText() ([]byte, error) { return []byte("t:" + t.V), nil }
 func (t *TextT) UnmarshalText(b []byte) error {
 	if len(b) < 2 || string(b[:2]) != "t:" {
 		return fmt.Errorf("bad TextT %q", b)
@@ -70,26 +70,26 @@ func (b *BothT) UnmarshalBinary(x []byte) error {
 
 // RowA: plain scalar columns of every width. Auto-increment primary key.
 type RowA struct {
-	Id    int64 `sql:",primary"`
+	Id int64 `sql:",primary"`
 	// not a column: struct field positions and column positions differ from here on
 	scratch int
-	Shard int64
-	I8    int8
-	I16   int16
-	I32   int32
-	I     int
-	U8    uint8
-	U16   uint16
-	U32   uint32
-	U64   uint64
-	F32   float32
-	F64   float64
-	B     bool
-	S     string
-	N     Named
-	NI    NamedInt `sql:"ni"`
-	By    []byte
-	T     time.Time
+	Shard   int64
+	I8      int8
+	I16     int16
+	I32     int32
+	I       int
+	U8      uint8
+	U16     uint16
+	U32     uint32
+	U64     uint64
+	F32     float32
+	F64     float64
+	B       bool
+	S       string
+	N       Named
+	NI      NamedInt `sql:"ni"`
+	By      []byte
+	T       time.Time
 }
 
 // RowB: pointer (NULLable) columns. Unique-id primary key (two columns).
@@ -98,35 +98,36 @@ type RowB struct {
 	Shard int32 `sql:",primary"`
 	// not a column either
 	Scratch *int64 `sql:"-" json:"-"`
-	PI    *int64
-	PI32  *int32
-	PU16  *uint16
-	PF    *float64
-	PB    *bool
-	PS    *string
-	PN    *Named
-	PT    *time.Time
-	By    []byte
+	PI      *int64
+	PI32    *int32
+	PU16    *uint16
+	PF      *float64
+	PB      *bool
+	PS      *string
+	PN      *Named
+	PT      *time.Time
+	By      []byte
 }
 
 // RowC: tagged columns. String primary key.
 type RowC struct {
-	Key   string `sql:",primary"`
-	Shard string
-	J     Custom         `sql:",json"`
-	JM    map[string]int `sql:",json"`
-	PJ    *Custom        `sql:",json"`
-	Tx    TextT          `sql:",string"`
-	PTx   *TextT         `sql:",string"`
-	Bin   BinT           `sql:",binary"`
-	PBin  *BinT          `sql:",binary"`
-	Both  BothT          `sql:",binary"`
-	PBoth *BothT         `sql:",binary"`
-	Proto thunderpb.Field  `sql:",binary"`
-	PProto *thunderpb.Field `sql:",binary"`
-	INS   string `sql:",implicitnull"`
-	INI   int64  `sql:"ini,implicitnull"`
-	INB   []byte `sql:",implicitnull"`
+	Key    string `sql:",primary"`
+	Shard  string
+	J      Custom                 `sql:",json"`
+	JM     map[string]int         `sql:",json"`
+	PJ     *Custom                `sql:",json"`
+	JI     map[string]interface{} `sql:",json"` // untyped document: numbers decode as float64
+	Tx     TextT                  `sql:",string"`
+	PTx    *TextT                 `sql:",string"`
+	Bin    BinT                   `sql:",binary"`
+	PBin   *BinT                  `sql:",binary"`
+	Both   BothT                  `sql:",binary"`
+	PBoth  *BothT                 `sql:",binary"`
+	Proto  thunderpb.Field        `sql:",binary"`
+	PProto *thunderpb.Field       `sql:",binary"`
+	INS    string                 `sql:",implicitnull"`
+	INI    int64                  `sql:"ini,implicitnull"`
+	INB    []byte                 `sql:",implicitnull"`
 }
 
 var Tables = []string{"row_a", "row_b", "row_c"}
@@ -204,6 +205,23 @@ func genValue(t *rapid.T, typ reflect.Type, name string) reflect.Value {
 		m := map[string]int{}
 		for i := 0; i < rapid.IntRange(0, 2).Draw(t, "mlen"); i++ {
 			m[rapid.SampledFrom([]string{"k", "l"}).Draw(t, "mk")] = rapid.IntRange(0, 2).Draw(t, "mv")
+		}
+		v.Set(reflect.ValueOf(m))
+		return v
+	case reflect.TypeOf(map[string]interface{}(nil)):
+		m := map[string]interface{}{}
+		for i := 0; i < rapid.IntRange(0, 3).Draw(t, "jilen"); i++ {
+			k := rapid.SampledFrom([]string{"n", "s", "l", "o"}).Draw(t, "jik")
+			switch k {
+			case "n":
+				m[k] = rapid.SampledFrom([]float64{0, 1, -2.5, 1e15, 9007199254740993}).Draw(t, "jin")
+			case "s":
+				m[k] = rapid.SampledFrom(strPool).Draw(t, "jis")
+			case "l":
+				m[k] = []interface{}{float64(rapid.IntRange(0, 3).Draw(t, "jil")), "x", nil, true}
+			default:
+				m[k] = map[string]interface{}{"deep": float64(rapid.IntRange(0, 3).Draw(t, "jio"))}
+			}
 		}
 		v.Set(reflect.ValueOf(m))
 		return v
